@@ -1,6 +1,6 @@
 /-
   Driver/Registry.lean — the table model-name × configuration-name → executable model.
-  One line per model; each model's entries live in Driver/Entries/<Model>.lean.
+  GENERATED (imports + table) by tools/regen_imports.py; each model's entries live in Driver/Entries/<Model>.lean.
 -/
 import UnifexModel.Driver.Entry
 import UnifexModel.Driver.Entries.AnyObj
@@ -12,6 +12,7 @@ import UnifexModel.Driver.Entries.Coro
 import UnifexModel.Driver.Entries.Ctx
 import UnifexModel.Driver.Entries.Event
 import UnifexModel.Driver.Entries.Mutex
+import UnifexModel.Driver.Entries.Sched
 import UnifexModel.Driver.Entries.Scope
 import UnifexModel.Driver.Entries.SpawnFuture
 import UnifexModel.Driver.Entries.StopSource
@@ -20,33 +21,38 @@ import UnifexModel.Driver.Entries.Timer
 namespace Unifex.Driver
 
 def table : List ModelEntries :=
-  [ Entries.stopsource
-  , Entries.calcEntries
-  , Entries.clock
-  , Entries.timerqueue
-  , Entries.timerop
-  , Entries.scopev2
-  , Entries.scopev1
-  , Entries.scopev0
+  [ Entries.anyobjEntries
+  , Entries.asyncstackEntries
   , Entries.bulk
-  , Entries.anyobjEntries
-  , Entries.ctxEntries
-  , Entries.spawnfuture
-  , Entries.coroEntries
-  , Entries.mutexv1
-  , Entries.mutexv2
-  , Entries.mutexv2fix
-  , Entries.alist
+  , Entries.calcEntries
   , Entries.cancellable
   , Entries.cancellableafter
   , Entries.detachoncancel
   , Entries.canary
   , Entries.stoponrequest
-  , Entries.asyncstackEntries
+  , Entries.coroEntries
+  , Entries.ctxEntries
   , Entries.eventv1
   , Entries.autoreset
   , Entries.eventv2
   , Entries.asyncpass
+  , Entries.mutexv1
+  , Entries.mutexv2
+  , Entries.mutexv2fix
+  , Entries.alist
+  , Entries.eventloop
+  , Entries.atomicqueue
+  , Entries.threadpool
+  , Entries.newthread
+  , Entries.trampoline
+  , Entries.scopev2
+  , Entries.scopev1
+  , Entries.scopev0
+  , Entries.spawnfuture
+  , Entries.stopsource
+  , Entries.clock
+  , Entries.timerqueue
+  , Entries.timerop
   ]
 
 def lookup (m c : String) : Option Entry :=
